@@ -164,6 +164,8 @@ def cls_template(cls):
     """foonathan::memory::memory_pool<...> -> memory_pool ; detail::x<...> -> detail::x"""
     if not cls:
         return ''
+    if cls.startswith('const '):
+        cls = cls[len('const '):]       # the class of `const T` is T
     parts = split_qual(strip_ns(cls))
     return '::'.join(tmpl_name(p) for p in parts)
 
